@@ -116,7 +116,7 @@ type c07Ans struct {
 	fail     bool
 	notResp  bool   // message without the response bit
 	servfail bool   // rcode SERVFAIL
-	qv       string // E echo, U upper-cased echo, N no question section
+	qv       string // E echo, U upper-cased echo, N no question section, D a different name
 	recs     []c07Rec
 }
 
@@ -175,6 +175,10 @@ func (f *c07Fwd) ForwardDNS(ctx context.Context, data []byte) (*dnsmessage.Msg, 
 		}
 	case "N":
 		m.Question = nil
+	case "D":
+		if len(m.Question) > 0 {
+			m.Question[0].Name = "evil.test."
+		}
 	}
 	if a.notResp {
 		m.Response = false
@@ -209,6 +213,8 @@ func c07ErrClass(err error) string {
 		return "routefail"
 	case strings.Contains(s, "c07 fake upstream: forward failed"):
 		return "forwardfail"
+	case strings.Contains(s, "does not answer the question asked"):
+		return "questionmismatch"
 	}
 	return "other:" + s
 }
@@ -294,6 +300,8 @@ func c07GenAns(r *VRand, stats *VStats) c07Ans {
 		a.qv = "U"
 	case 2:
 		a.qv = "N"
+	case 3:
+		a.qv = "D"
 	}
 	a.notResp = r.Chance(0.03)
 	a.servfail = r.Chance(0.08)
